@@ -416,6 +416,12 @@ impl DrawExecutor {
         if x0 > x1 {
             std::mem::swap(&mut x0, &mut x1);
         }
+        // only the part inside the canvas can be drawn
+        let res = self.get_resolution();
+        x0 = x0.max(0);
+        y0 = y0.max(0);
+        x1 = x1.min(res.width - 1);
+        y1 = y1.min(res.height - 1);
 
         for y in y0..=y1 {
             for x in x0..=x1 {
